@@ -83,7 +83,13 @@ def findDocs (filter : Val) (docs : List Val) : R (List Val) :=
 /-! ### `$match` (aggregate.py:1601-1606) -/
 
 def matchStage (opts : Val) (docs : List Val) : R (List Val) :=
-  filterR (fun d => filterApplies (patch opts) (patch d)) docs
+  match docs with
+  | [] =>
+    -- "validate the filter even if no documents can be returned (as find does)"
+    match filterApplies (patch opts) (.doc []) with
+    | .error e => .error e
+    | .ok _ => .ok []
+  | _ => filterR (fun d => filterApplies (patch opts) (patch d)) docs
 
 /-! ### `$sort` (aggregate.py:1367-1376) -/
 
